@@ -58,6 +58,7 @@ func init() {
 		c11Op{name: "AddImageFromData", kind: "image"},
 		c11Op{name: "AddListItem", kind: "list"},
 		c11Op{name: "AddParagraph", kind: "para"},
+		c11Op{name: "work on another document (build, save, reopen, render as template)", kind: "other"},
 		c11Op{name: "reopen", kind: "reopen"},
 		c11Op{name: "render-as-template", kind: "render"},
 	)
@@ -156,6 +157,8 @@ func (i *c11Inst) Apply(op int) (string, []rep.Violation) {
 			i.doc.AddListItem("item", &document.ListConfig{Type: document.ListTypeBullet, BulletSymbol: document.BulletTypeDot})
 		case "para":
 			i.doc.AddParagraph("body")
+		case "other":
+			interfereRaw()
 		case "reopen":
 			_, b, errS := saveRead(i.doc)
 			if errS != "" {
